@@ -84,7 +84,7 @@ func init() {
 	forge("C05", "commit vote lists with removed, duplicated, foreign-key, other-round, bit-flipped, previous-height, empty or re-timed items; vote hash and timestamp recomputed so that the certificate is the only defect; sizes on both sides of the 2/3 threshold", "bad-certificate-accepted",
 		[]string{"byz_forged_block:minus-to-2/3", "byz_forged_block:duplicate", "byz_forged_block:foreign-key", "byz_forged_block:bitflip", "byz_forged_block:empty", "byz_forged_block:time-shift", "byz_forged_block:minus-to-2/3+1", "forged_but_valid_block_accepted"})
 	forge("C07", "single-field deviations: height+-1, previous id random or grandparent, version, timestamp +-1 microsecond around the median of the commit votes, timestamp equal to or below the parent's", "deviant-block-accepted",
-		[]string{"byz_forged_block:timestamp+1", "byz_forged_block:timestamp-1", "byz_forged_block:height+1", "byz_forged_block:previd-random", "byz_forged_block:version", "byz_forged_block:timestamp=parent"})
+		[]string{"byz_forged_block:timestamp+1", "byz_forged_block:timestamp-1", "byz_forged_block:height+1", "byz_forged_block:previd-random", "byz_forged_block:previd-extended", "byz_forged_block:version", "byz_forged_block:timestamp=parent"})
 	forge("C08", "encodings whose body does not match the header hashes (votes, transactions, BTP digest, body of another block), random bytes, truncated encodings, single byte flips", "unbound-or-malformed-block-accepted",
 		[]string{"byz_forged_block:byteflip", "byz_forged_block:votes-hash-mismatch", "byz_forged_block:tx-body-swap", "byz_forged_block:random-bytes", "byz_forged_block:truncated"})
 	kit.Register(&kit.PropertySpec{
